@@ -40,7 +40,7 @@ var regSets = [][]c09.Reg{
 // expected implements the property's reading of dispatch directly: formatted name ↦ tag (latest wins),
 // direct name first, then one alias hop.
 func expected(h c09.HandlerDesc, method string) (tag string, m *api.MethodDesc) {
-	f := c09.Formatter(h.Fmt)
+	f := c09.OracleFormatter(h.Fmt)
 	byName := map[string]*api.MethodDesc{}
 	for ri := range h.Regs {
 		for mi := range h.Regs[ri].Methods {
@@ -66,7 +66,7 @@ func expected(h c09.HandlerDesc, method string) (tag string, m *api.MethodDesc) 
 func candidates(h c09.HandlerDesc) []string {
 	set := map[string]bool{"": true, ".": true, "Foo": true, "foo": true, "A": true, "A.": true, ".Foo": true, "A.foo ": true, "A.Foo.Bar": true, "xrpc.x": true}
 	for _, f := range formatters {
-		ff := c09.Formatter(f)
+		ff := c09.OracleFormatter(f)
 		for _, ns := range []string{"A", "B", "", "X", "A.B", "a", "A.Foo", "AB"} {
 			for _, m := range []string{"Foo", "Bar", "Baz", "FooBar", "Three", "BFoo", "ABFoo"} {
 				set[ff(ns, m)] = true
@@ -106,7 +106,7 @@ var variants = []paramVariant{
 }
 
 func aliasTables(h c09.HandlerDesc) [][][2]string {
-	f := c09.Formatter(h.Fmt)
+	f := c09.OracleFormatter(h.Fmt)
 	first := f(h.Regs[0].Ns, "Foo")
 	second := f(h.Regs[len(h.Regs)-1].Ns, "Bar")
 	return [][][2]string{
@@ -354,9 +354,10 @@ func agree(d *fw.Driver, res *fw.Result, h c09.HandlerDesc) error {
 		return nil
 	}
 	ns0 := h.Regs[0].Ns
-	f := c09.Formatter(h.Fmt)
+	f := c09.Formatter(h.Fmt)        // what the client is configured with (the library's formatter)
+	fo := c09.OracleFormatter(h.Fmt) // what the expectations are computed with
 	// the tagged field names a server-side alias
-	h.Aliases = append(append([][2]string{}, h.Aliases...), [2]string{"TAG", f(ns0, "Foo")})
+	h.Aliases = append(append([][2]string{}, h.Aliases...), [2]string{"TAG", fo(ns0, "Foo")})
 	l := &api.Log{}
 	s := c09.BuildServer(h, 0, l)
 	ts := httptest.NewServer(s)
@@ -377,7 +378,7 @@ func agree(d *fw.Driver, res *fw.Result, h c09.HandlerDesc) error {
 		if len(ents) == 1 {
 			got = ents[0].Tag
 		}
-		name := f(ns0, field)
+		name := fo(ns0, field)
 		if tag != "" {
 			name = tag
 		}
